@@ -90,3 +90,189 @@ Section Split.
         by (apply existsb_exists; exists f; auto). congruence.
   Qed.
 End Split.
+
+(* ---------- split_covers_exactly (file mode) ---------- *)
+(* the byte range (offset, size) a chunk covers in its file: loadChunkData reads
+   ChunkSize bytes at FileChunkId * chunk size *)
+Definition range (cs : N) (m : cmeta) : N * N := (c_fcid m * cs, c_size m).
+
+(* [rs] are consecutive non-empty ranges starting at [off] and ending at [total] *)
+Fixpoint covers (off : N) (rs : list (N * N)) (total : N) : Prop :=
+  match rs with
+  | [] => off = total
+  | (o, s) :: r => o = off /\ 0 < s /\ covers (off + s) r total
+  end.
+
+Fixpoint mids_from (i : N) (l : list cmeta) : Prop :=
+  match l with
+  | [] => True
+  | m :: r => c_id m = i /\ mids_from (i + 1) r
+  end.
+
+Lemma mids_from_app : forall l1 l2 i, mids_from i l1 -> mids_from (i + nlen l1) l2 -> mids_from i (l1 ++ l2).
+Proof.
+  induction l1 as [|m l1 IH]; intros l2 i H1 H2; simpl.
+  - unfold nlen in H2. simpl in H2. rewrite N.add_0_r in H2. exact H2.
+  - destruct H1 as [A B]. split; auto. apply IH; auto.
+    replace (i + 1 + nlen l1) with (i + nlen (m :: l1)); auto.
+    unfold nlen. simpl length. rewrite Nat2N.inj_succ. lia.
+Qed.
+
+Lemma mids_from_map : forall (f : cmeta -> cmeta), (forall m, c_id (f m) = c_id m) ->
+                                                   forall l i, mids_from i l -> mids_from i (map f l).
+Proof. intros f Hf. induction l as [|m l IH]; intros i H; simpl; auto. destruct H. rewrite Hf. auto. Qed.
+
+Section SplitFull.
+  Variable cs : N.
+  Hypothesis cs_pos : 0 < cs.
+
+  Definition file_chunk (msg : ssmsg) (path : bytes) (fsize start : N) (sf : option sfile) (i : N) : cmeta :=
+    let cc := chunk_count cs fsize in
+    mkCMeta (m_shard msg) (m_to msg) (m_from msg) (start + i)
+            (if i =? cc - 1 then fsize - (cc - 1) * cs else cs) 0
+            (m_index msg) (m_term msg) path fsize 0 i cc
+            (match sf with Some _ => true | None => false end)
+            (match sf with Some f => f | None => sfile0 end)
+            transport_bin_version (m_odi msg) (m_witness msg).
+
+  Lemma split_file_eq : forall msg path fsize start sf,
+      split_file cs msg path fsize start sf =
+      map (fun k => file_chunk msg path fsize start sf (N.of_nat k)) (seq 0 (N.to_nat (chunk_count cs fsize))).
+  Proof. intros. unfold split_file, nseq. rewrite map_map. reflexivity. Qed.
+
+  (* the ranges of one file's chunks partition [0, fsize) in order *)
+  Lemma seq_covers : forall msg path fsize start sf, 0 < fsize ->
+      forall len s, (s + len = N.to_nat (chunk_count cs fsize))%nat ->
+      covers (N.min (N.of_nat s * cs) fsize)
+             (map (fun k => range cs (file_chunk msg path fsize start sf (N.of_nat k))) (seq s len)) fsize /\
+      mids_from (start + N.of_nat s) (map (fun k => file_chunk msg path fsize start sf (N.of_nat k)) (seq s len)).
+  Proof.
+    intros msg path fsize start sf Hf.
+    set (q := (fsize - 1) / cs).
+    assert (Hcc : chunk_count cs fsize = q + 1) by reflexivity.
+    assert (Hq : q * cs <= fsize - 1 /\ fsize - 1 < (q + 1) * cs) by (unfold q; nia).
+    induction len as [|len IH]; intros s Hs; simpl.
+    - split; auto. rewrite Hcc in Hs. apply N.min_r. nia.
+    - assert (Hsq : N.of_nat s <= q) by (rewrite Hcc in Hs; lia).
+      destruct (IH (S s)) as [C M]; [lia|].
+      unfold range at 1. simpl c_fcid. simpl c_size.
+      split.
+      + split; [symmetry; apply N.min_l; nia|].
+        destruct (N.of_nat s =? chunk_count cs fsize - 1) eqn:E.
+        * apply N.eqb_eq in E. split; [nia|].
+          replace (N.min (N.of_nat s * cs) fsize + (fsize - (chunk_count cs fsize - 1) * cs))
+            with (N.min (N.of_nat (S s) * cs) fsize); [exact C|].
+          rewrite (N.min_r (N.of_nat (S s) * cs) fsize) by nia. rewrite (N.min_l (N.of_nat s * cs) fsize) by nia. nia.
+        * apply N.eqb_neq in E. split; [lia|].
+          replace (N.min (N.of_nat s * cs) fsize + cs) with (N.min (N.of_nat (S s) * cs) fsize); [exact C|].
+          rewrite (N.min_l (N.of_nat (S s) * cs) fsize) by nia. rewrite (N.min_l (N.of_nat s * cs) fsize) by nia. nia.
+      + split; [reflexivity|]. replace (start + N.of_nat s + 1) with (start + N.of_nat (S s)) by lia. exact M.
+  Qed.
+
+  Lemma split_file_partition : forall msg path fsize start sf, 0 < fsize ->
+      covers 0 (map (range cs) (split_file cs msg path fsize start sf)) fsize /\
+      mids_from start (split_file cs msg path fsize start sf).
+  Proof.
+    intros msg path fsize start sf Hf. rewrite split_file_eq, map_map.
+    destruct (seq_covers msg path fsize start sf Hf (N.to_nat (chunk_count cs fsize)) 0%nat eq_refl) as [C M].
+    simpl in C. rewrite N.min_l in C by lia. rewrite N.add_0_r in M. split; assumption.
+  Qed.
+
+  (* the chunks of a message, file by file *)
+  Fixpoint split_segs (msg : ssmsg) (files : list sfile) (start : N) : list (list cmeta) :=
+    match files with
+    | [] => []
+    | f :: r =>
+      let l := split_file cs msg (sf_path f) (sf_size f) start (Some f) in
+      l :: split_segs msg r (start + nlen l)
+    end.
+
+  Lemma split_files_concat : forall msg files start,
+      split_files cs msg files start = concat (split_segs msg files start).
+  Proof. induction files as [|f r IH]; intro start; simpl; auto. rewrite IH. reflexivity. Qed.
+
+  (* one file's segment: ranges partition [0, size), metadata consistent *)
+  Definition seg_ok (path : bytes) (fsize : N) (sf : option sfile) (seg : list cmeta) : Prop :=
+    covers 0 (map (range cs) seg) fsize /\
+    map c_fcid seg = nseq (nlen seg) /\
+    nlen seg = chunk_count cs fsize /\
+    Forall (fun m => c_path m = path /\ c_fsize m = fsize /\ c_fccount m = nlen seg /\ 1 <= c_size m <= cs /\
+                     c_hasfi m = (match sf with Some _ => true | None => false end) /\
+                     c_fi m = (match sf with Some f => f | None => sfile0 end)) seg.
+
+  Lemma split_file_seg_ok : forall msg path fsize start sf, 0 < fsize ->
+      seg_ok path fsize sf (split_file cs msg path fsize start sf).
+  Proof.
+    intros msg path fsize start sf Hf.
+    destruct (split_file_covers cs cs_pos msg path fsize start sf Hf) as [_ [A [_ [B C]]]].
+    destruct (split_file_partition msg path fsize start sf Hf) as [P _].
+    unfold seg_ok. rewrite B. repeat split; auto.
+    apply Forall_forall. intros m Hin. rewrite Forall_forall in C. destruct (C m Hin) as [H1 [H2 [H3 [H4 [H5 H6]]]]].
+    unfold split_file in Hin. apply in_map_iff in Hin. destruct Hin as [i [Hi _]]. subst m. simpl in *.
+    repeat split; auto; lia.
+  Qed.
+
+  Lemma split_segs_ok : forall msg files start,
+      Forall (fun f => 0 < sf_size f) files ->
+      Forall2 (fun seg f => seg_ok (sf_path f) (sf_size f) (Some f) seg) (split_segs msg files start) files /\
+      mids_from start (concat (split_segs msg files start)).
+  Proof.
+    induction files as [|f r IH]; intros start Hp; simpl.
+    - split; constructor.
+    - inversion Hp; subst. destruct (IH (start + nlen (split_file cs msg (sf_path f) (sf_size f) start (Some f))) H2) as [A B].
+      split.
+      + constructor; auto. apply split_file_seg_ok. assumption.
+      + apply mids_from_app; auto. apply split_file_partition. assumption.
+  Qed.
+
+  (* split_covers_exactly: getChunks panics exactly when a file is empty; otherwise the
+     chunk list is the concatenation of one segment per file (main file first, then the
+     external files in order); within each segment the (offset, size) ranges partition
+     [0, file size) in order, FileChunkId = 0..k-1, FileChunkCount = k = ceil(size/cs), every
+     chunk has 1..cs bytes and carries the file's path, size and file info; over the whole
+     list ChunkId = 0..n-1 and ChunkCount = n *)
+  Lemma split_covers_exactly_proved :
+    forall msg,
+      (get_chunks cs msg = None <-> m_fsize msg = 0 \/ exists f, In f (m_files msg) /\ sf_size f = 0) /\
+      (forall l, get_chunks cs msg = Some l ->
+         exists seg0 segs,
+           l = seg0 ++ concat segs /\
+           seg_ok (m_path msg) (m_fsize msg) None (map (set_count cs 0) seg0) /\
+           Forall2 (fun seg f => seg_ok (sf_path f) (sf_size f) (Some f) (map (set_count cs 0) seg)) segs (m_files msg) /\
+           mids_from 0 l /\ Forall (fun m => c_count m = nlen l) l).
+  Proof.
+    intro msg. split.
+    - unfold get_chunks. destruct (_ || _) eqn:E; split; intro H; try discriminate; auto.
+      + apply orb_true_iff in E. destruct E as [E|E]; [left; apply N.eqb_eq; exact E|right].
+        apply existsb_exists in E. destruct E as [f [A B]]. exists f. split; auto. apply N.eqb_eq. exact B.
+      + exfalso. apply orb_false_iff in E as [E1 E2]. destruct H as [H|[f [A B]]].
+        * apply N.eqb_neq in E1. contradiction.
+        * assert (X : existsb (fun f0 => sf_size f0 =? 0) (m_files msg) = true)
+            by (apply existsb_exists; exists f; split; auto; apply N.eqb_eq; exact B).
+          congruence.
+    - intros l H.
+      destruct (get_chunks_count cs cs_pos msg l H) as [Hc [Hm Hfs]].
+      unfold get_chunks in H. destruct (_ || _); [discriminate|]. injection H as H.
+      set (main := split_file cs msg (m_path msg) (m_fsize msg) 0 None) in *.
+      rewrite split_files_concat in H.
+      set (segs := split_segs msg (m_files msg) (nlen main)) in *.
+      set (n := nlen (main ++ concat segs)) in *.
+      exists (map (set_count cs n) main), (map (map (set_count cs n)) segs).
+      destruct (split_segs_ok msg (m_files msg) (nlen main) Hfs) as [S M]. fold segs in S, M.
+      assert (SC : forall k seg, map (set_count cs 0) (map (set_count cs k) seg) = map (set_count cs 0) seg)
+        by (intros; rewrite map_map; reflexivity).
+      assert (SO : forall path fsize sf seg, seg_ok path fsize sf seg -> seg_ok path fsize sf (map (set_count cs 0) seg)).
+      { intros path fsize sf seg [A [B [C E]]]. unfold seg_ok, nlen. rewrite !map_map, !map_length. simpl.
+        fold (nlen seg). repeat split; auto.
+        - rewrite <- B. reflexivity.
+        - apply Forall_forall. intros m Hin. apply in_map_iff in Hin. destruct Hin as [x [Hx Hin]]. subst m.
+          rewrite Forall_forall in E. apply (E x Hin). }
+      split; [|split; [|split; [|split]]].
+      + rewrite <- H. rewrite map_app. f_equal. rewrite concat_map. reflexivity.
+      + rewrite SC. apply SO. apply split_file_seg_ok. exact Hm.
+      + clear - S SC SO. induction S; simpl; constructor; auto. rewrite SC. apply SO. assumption.
+      + rewrite <- H. apply mids_from_map; [reflexivity|].
+        apply mids_from_app; [apply split_file_partition; exact Hm|]. rewrite N.add_0_l. exact M.
+      + exact Hc.
+  Qed.
+End SplitFull.
